@@ -15,7 +15,7 @@ EXPL = ("Decides: SA-CFGDIFF: all MIR bodies reduced to their effects are compar
 
 def run(ctx):
     quick = ctx.tier == "quick"
-    cfgs = ["rel", "dbg", "unsafe", "unchecked", "fnv", "strict", "nodef"] if quick else \
+    cfgs = ["rel", "dbg", "unsafe", "unchecked", "fnv", "unsafe_fnv", "strict", "nodef"] if quick else \
         ["rel", "dbg", "unsafe", "unsafe_dbg", "unchecked", "fnv", "strict", "strict_dbg", "nodef", "alloc", "unsafe_fnv", "all"]
     progs = ctx.progs(cfgs)
     for c in cfgs:
